@@ -285,60 +285,50 @@ const accPrefix = "/a/"
 
 type kv struct{ k, v string }
 
-// State observation. The main store (accounts, params, supply, gas price: a few hundred keys) is read in full
-// after every step. The base store (stdlibs + realm objects: ~12k keys, tens of MB; one full read costs >100 ms)
-// is observed through the dirty entries of the block's cache layer — every write made through a sdk.Context
-// lands there until Commit — compared by EFFECTIVE value against the parent; in addition the full base store is
-// read once at the end of every chain and compared with (genesis base store + all observed layers), so a write
-// that bypassed the layer would be caught there (less localised).
+// State observation. Reading both stores in full costs >100 ms (main: mem-packages, ~2 MB; base: stdlib objects,
+// ~12k keys, tens of MB), so per step the state is observed through the DIRTY ENTRIES OF THE BLOCK'S CACHE LAYER
+// of both stores — every write made through a sdk.Context lands there until Commit — compared by EFFECTIVE value
+// against the parent (a re-write of an identical value is not a change), plus a scan of the account records.
+// In addition both stores are read in full once at the end of every chain and compared with (genesis stores +
+// all observed layers): a write that bypassed the layer is caught there (less localised).
 type lval struct {
-	v  string // effective value in the layer ("" + !present: deleted)
+	v  string // effective value in the layer (!ok: deleted)
 	ok bool
 	pv string // the parent's value for that key
 	po bool
 }
 
 type snap struct {
-	main  []kv
-	layer map[string]lval // base store: dirty keys of the cache layer
+	accts []kv               // main store keys under /a/
+	gan   string             // main store: account-number counter
+	layer [2]map[string]lval // dirty keys of the cache layer: [0] base store, [1] main store
 }
+
+var storeName = [2]string{"base/", "main/"}
 
 type dirtyLayer interface {
 	VerifDirty(f func(key string, value []byte, deleted bool))
 	VerifParent() types.Store
 }
 
-func readKVs(st types.Store, old []kv) ([]kv, bool) {
-	it := st.Iterator(nil, nil, nil)
+func readKVs(st types.Store, start, end []byte) []kv {
+	it := st.Iterator(nil, start, end)
 	defer it.Close()
-	i := 0
-	for ; it.Valid(); it.Next() {
-		if i < len(old) && string(it.Key()) == old[i].k && string(it.Value()) == old[i].v {
-			i++
-			continue
-		}
-		break
-	}
-	if !it.Valid() && i == len(old) {
-		return old, true
-	}
-	out := make([]kv, i, len(old)+8)
-	copy(out, old[:i])
+	var out []kv
 	for ; it.Valid(); it.Next() {
 		out = append(out, kv{string(it.Key()), string(it.Value())})
 	}
-	return out, false
+	return out
 }
 
 func readLayer(st types.Store) map[string]lval {
 	dl, ok := st.(dirtyLayer)
 	if !ok {
-		r.HarnessError("base store of the block state is not a cache layer: %T", st)
+		r.HarnessError("store of the block state is not a cache layer: %T", st)
 	}
 	out := map[string]lval{}
 	dl.VerifDirty(func(k string, v []byte, deleted bool) {
-		lv := lval{v: string(v), ok: !deleted && v != nil}
-		out[k] = lv
+		out[k] = lval{v: string(v), ok: !deleted && v != nil}
 	})
 	par := dl.VerifParent()
 	for k, lv := range out {
@@ -350,8 +340,8 @@ func readLayer(st types.Store) map[string]lval {
 	return out
 }
 
-// layerDiff lists base-store keys whose effective value differs between two layers of the same block.
-func layerDiff(a, b map[string]lval) []string {
+// layerDiff lists keys whose effective value differs between two layers of the same block.
+func layerDiff(a, b map[string]lval, prefix string) []string {
 	var out []string
 	for k, lb := range b {
 		av, ao := lb.pv, lb.po
@@ -359,61 +349,74 @@ func layerDiff(a, b map[string]lval) []string {
 			av, ao = la.v, la.ok
 		}
 		if av != lb.v || ao != lb.ok {
-			out = append(out, "base/"+k)
+			out = append(out, prefix+k)
 		}
 	}
 	for k, la := range a {
 		if _, ok := b[k]; !ok && (la.v != la.pv || la.ok != la.po) {
-			out = append(out, "base/"+k)
+			out = append(out, prefix+k)
 		}
 	}
 	sort.Strings(out)
 	return out
 }
 
-// takeSnap observes ms; same reports equality with prev (full main store + effective base layer).
+// takeSnap observes ms; same reports equality with prev.
 func takeSnap(ms store.MultiStore, baseKey, mainKey types.StoreKey, prev *snap) (*snap, bool) {
-	var pm []kv
-	var pl map[string]lval
-	if prev != nil {
-		pm, pl = prev.main, prev.layer
-	}
-	nmn, sm := readKVs(ms.GetStore(mainKey), pm)
-	nl := readLayer(ms.GetStore(baseKey))
-	same := prev != nil && sm && len(layerDiff(pl, nl)) == 0
-	return &snap{main: nmn, layer: nl}, same
+	n := &snap{}
+	mst := ms.GetStore(mainKey)
+	n.accts = readKVs(mst, []byte(accPrefix), []byte("/a0"))
+	n.gan = string(mst.Get(nil, []byte(auth.GlobalAccountNumberKey)))
+	n.layer[0] = readLayer(ms.GetStore(baseKey))
+	n.layer[1] = readLayer(mst)
+	same := prev != nil && len(changedKeys(prev, n)) == 0
+	return n, same
 }
 
-func diffKV(a, b []kv, prefix string) []string {
-	var out []string
+func changedKeys(a, b *snap) []string {
+	out := append(layerDiff(a.layer[0], b.layer[0], storeName[0]), layerDiff(a.layer[1], b.layer[1], storeName[1])...)
+	// belt and braces: the account scan must agree with the layer
 	i, j := 0, 0
-	for i < len(a) || j < len(b) {
+	for i < len(a.accts) || j < len(b.accts) {
+		var k string
 		switch {
-		case j >= len(b) || (i < len(a) && a[i].k < b[j].k):
-			out = append(out, prefix+a[i].k)
+		case j >= len(b.accts) || (i < len(a.accts) && a.accts[i].k < b.accts[j].k):
+			k = a.accts[i].k
 			i++
-		case i >= len(a) || b[j].k < a[i].k:
-			out = append(out, prefix+b[j].k)
+		case i >= len(a.accts) || b.accts[j].k < a.accts[i].k:
+			k = b.accts[j].k
 			j++
 		default:
-			if a[i].v != b[j].v {
-				out = append(out, prefix+a[i].k)
+			if a.accts[i].v != b.accts[j].v {
+				k = a.accts[i].k
 			}
 			i++
 			j++
 		}
+		if k != "" && !contains(out, "main/"+k) {
+			out = append(out, "main/"+k)
+		}
+	}
+	if a.gan != b.gan && !contains(out, "main/"+auth.GlobalAccountNumberKey) {
+		out = append(out, "main/"+auth.GlobalAccountNumberKey)
 	}
 	return out
 }
 
-func changedKeys(a, b *snap) []string {
-	return append(layerDiff(a.layer, b.layer), diffKV(a.main, b.main, "main/")...)
+func contains(s []string, x string) bool {
+	for _, y := range s {
+		if x == y {
+			return true
+		}
+	}
+	return false
 }
 
-func (s *snap) get(mainKey string) (string, bool) {
-	i := sort.Search(len(s.main), func(i int) bool { return s.main[i].k >= mainKey })
-	if i < len(s.main) && s.main[i].k == mainKey {
-		return s.main[i].v, true
+func (s *snap) acct(key string) (string, bool) {
+	for _, e := range s.accts {
+		if e.k == key {
+			return e.v, true
+		}
 	}
 	return "", false
 }
@@ -421,7 +424,7 @@ func (s *snap) get(mainKey string) (string, bool) {
 // compareAccounts checks that the account records (and the account-number counter) of a dump equal the model.
 func compareAccounts(m *model, d *snap) string {
 	seen := 0
-	for _, e := range d.main {
+	for _, e := range d.accts {
 		k, v := e.k, e.v
 		if !strings.HasPrefix(k, accPrefix) {
 			continue
@@ -460,7 +463,7 @@ func compareAccounts(m *model, d *snap) string {
 		return fmt.Sprintf("store has %d accounts, model %d", seen, len(m.acc))
 	}
 	var n uint64
-	if bz, ok := d.get(auth.GlobalAccountNumberKey); ok {
+	if bz := d.gan; bz != "" {
 		if err := amino.Unmarshal([]byte(bz), &n); err != nil {
 			return "undecodable account-number counter"
 		}
@@ -481,7 +484,7 @@ func coinsOrEmpty(n int64) std.Coins {
 // modelFromDump builds the initial model from a genesis dump (the starting point is given, not derived).
 func modelFromDump(d *snap) *model {
 	m := &model{acc: map[crypto.Address]*mAcc{}}
-	for _, e := range d.main {
+	for _, e := range d.accts {
 		k, v := e.k, e.v
 		if strings.HasPrefix(k, accPrefix) && len(k) == len(accPrefix)+crypto.AddressSize {
 			var acc std.Account
@@ -494,7 +497,7 @@ func modelFromDump(d *snap) *model {
 			m.acc[acc.GetAddress()] = &mAcc{Num: acc.GetAccountNumber(), Ugnot: acc.GetCoins().AmountOf("ugnot")}
 		}
 	}
-	if bz, ok := d.get(auth.GlobalAccountNumberKey); ok {
+	if bz := d.gan; bz != "" {
 		amino.MustUnmarshal([]byte(bz), &m.nextNum)
 	}
 	for _, k := range []crypto.Address{A.Addr, B.Addr, C.Addr, Z.Addr, MAddr} {
@@ -537,78 +540,92 @@ type hist struct {
 	dump  *snap  // deliver state
 	cdump *snap  // check state
 	dirty bool   // a violation was seen: do not keep using this chain
-	// base-store writes committed by earlier blocks of this chain (key -> value, absent = deleted)
-	baseSet map[string]string
-	baseDel map[string]bool
+	// writes committed by earlier blocks of this chain, per store (key -> value; in del: deleted)
+	set [2]map[string]string
+	del [2]map[string]bool
 }
 
-// genesisBase: the full base store right after genesis + one empty block (identical for every chain).
-var genesisBase []kv
+// genesisFull: both stores in full right after genesis + one empty block (identical for every chain).
+var genesisFull [2][]kv
 
 const lastHeaderKey = "last_header" // written into the base store by BaseApp.Commit itself
 
-// finish reads the whole base store once and compares it with genesis + every layer observed on this chain.
+// finish reads both stores in full once and compares them with genesis + every layer observed on this chain.
 func (h *hist) finish(label string) {
 	if h.dirty {
 		return
 	}
-	exp := map[string]string{}
-	for _, e := range genesisBase {
-		exp[e.k] = e.v
-	}
-	for k := range h.baseDel {
-		delete(exp, k)
-	}
-	for k, v := range h.baseSet {
-		exp[k] = v
-	}
-	for k, lv := range h.dump.layer {
-		if lv.ok {
-			exp[k] = lv.v
-		} else {
+	bk, mk := h.c.Base.VerifStoreKeys()
+	for si, key := range []types.StoreKey{bk, mk} {
+		exp := make(map[string]string, len(genesisFull[si]))
+		for _, e := range genesisFull[si] {
+			exp[e.k] = e.v
+		}
+		for k := range h.del[si] {
 			delete(exp, k)
 		}
-	}
-	bk, _ := h.c.Base.VerifStoreKeys()
-	it := h.c.Base.VerifDeliverMultiStore().GetStore(bk).Iterator(nil, nil, nil)
-	defer it.Close()
-	n := 0
-	var bad []string
-	for ; it.Valid(); it.Next() {
-		k := string(it.Key())
-		n++
-		if k == lastHeaderKey {
-			continue
+		for k, v := range h.set[si] {
+			exp[k] = v
 		}
-		if v, ok := exp[k]; !ok || v != string(it.Value()) {
-			bad = append(bad, show(k))
+		for k, lv := range h.dump.layer[si] {
+			if lv.ok {
+				exp[k] = lv.v
+			} else {
+				delete(exp, k)
+			}
 		}
-		delete(exp, k)
-	}
-	delete(exp, lastHeaderKey)
-	for k := range exp {
-		bad = append(bad, show(k)+"(missing)")
+		it := h.c.Base.VerifDeliverMultiStore().GetStore(key).Iterator(nil, nil, nil)
+		var bad []string
+		for ; it.Valid(); it.Next() {
+			k := string(it.Key())
+			if si == 0 && k == lastHeaderKey {
+				continue
+			}
+			if v, ok := exp[k]; !ok || v != string(it.Value()) {
+				bad = append(bad, storeName[si]+show(k))
+			}
+			delete(exp, k)
+		}
+		it.Close()
+		delete(exp, lastHeaderKey)
+		for k := range exp {
+			bad = append(bad, storeName[si]+show(k)+"(missing)")
+		}
+		if len(bad) > 0 {
+			sort.Strings(bad)
+			r.Violation("store-changed-behind-the-block-cache-layer:"+label, map[string]any{"keys": head(bad, 10)})
+		}
 	}
 	nFull.Add(1)
-	if len(bad) > 0 {
-		sort.Strings(bad)
-		r.Violation("base-store-changed-behind-the-block-cache-layer:"+label, map[string]any{"keys": head(bad, 10)})
+}
+
+// commitLayer records the layers (read after EndBlock) that Commit is about to flush.
+func (h *hist) commitLayer() {
+	for si := 0; si < 2; si++ {
+		if h.set[si] == nil {
+			h.set[si], h.del[si] = map[string]string{}, map[string]bool{}
+		}
+		for k, lv := range h.dump.layer[si] {
+			if lv.ok {
+				h.set[si][k] = lv.v
+				delete(h.del[si], k)
+			} else {
+				delete(h.set[si], k)
+				h.del[si][k] = true
+			}
+		}
 	}
 }
 
-func (h *hist) commitLayer() {
-	if h.baseSet == nil {
-		h.baseSet, h.baseDel = map[string]string{}, map[string]bool{}
-	}
-	for k, lv := range h.dump.layer {
-		if lv.ok {
-			h.baseSet[k] = lv.v
-			delete(h.baseDel, k)
-		} else {
-			delete(h.baseSet, k)
-			h.baseDel[k] = true
-		}
-	}
+// endBlockCommit = chainx.EndBlockCommit, with the layers observed between EndBlock and Commit.
+func (h *hist) endBlockCommit() {
+	c := h.c
+	c.App.EndBlock(abci.RequestEndBlock{Height: c.Height + 1})
+	h.dump, _ = h.snapDeliver(nil)
+	h.commitLayer()
+	c.App.Commit()
+	c.Height++
+	c.InBlock = false
 }
 
 func (h *hist) snapDeliver(prev *snap) (*snap, bool) {
@@ -739,7 +756,7 @@ func (h *hist) deliver(tx std.Tx, label string) (changed bool) {
 func seqAdvanced(pre *model, d *snap) bool {
 	for a, ma := range pre.acc {
 		var acc std.Account
-		if bz, ok := d.get(accPrefix + string(a[:])); ok && amino.Unmarshal([]byte(bz), &acc) == nil && acc.GetSequence() != ma.Seq {
+		if bz, ok := d.acct(accPrefix + string(a[:])); ok && amino.Unmarshal([]byte(bz), &acc) == nil && acc.GetSequence() != ma.Seq {
 			return true
 		}
 	}
@@ -797,15 +814,13 @@ func (h *hist) check(tx std.Tx, label string) (changed bool) {
 }
 
 func (h *hist) nextBlock() {
-	h.commitLayer()
-	h.c.EndBlockCommit()
+	h.endBlockCommit()
 	h.c.BeginBlock()
 	h.afterCommit("next-block")
 }
 
 func (h *hist) restart() {
-	h.commitLayer()
-	h.c.EndBlockCommit()
+	h.endBlockCommit()
 	if err := h.c.Restart(); err != nil {
 		r.HarnessError("restart: %v", err)
 	}
@@ -1633,8 +1648,9 @@ func main() {
 	g := newHist() // first chain: loads the stdlibs once (cached for all later chains)
 	genesis := g.m.clone()
 	{
-		bk, _ := g.c.Base.VerifStoreKeys()
-		genesisBase, _ = readKVs(g.c.Base.VerifDeliverMultiStore().GetStore(bk), nil)
+		bk, mk := g.c.Base.VerifStoreKeys()
+		genesisFull[0] = readKVs(g.c.Base.VerifDeliverMultiStore().GetStore(bk), nil, nil)
+		genesisFull[1] = readKVs(g.c.Base.VerifDeliverMultiStore().GetStore(mk), nil, nil)
 	}
 
 	// part 1
@@ -1710,6 +1726,6 @@ func main() {
 	}
 	r.Finish(fmt.Sprintf("part1: %d bases x {S0,S1} x %d-entry mutation catalogue (per signer slot); part2: every model-reachable history of <=%d state-changing steps over %d pre-signed txs + next-block, with every alphabet entry tried at every visited state; part3: same over %d CheckTx/DeliverTx ops; %d restart histories; distinct = distinct (case|history) labels",
 		len(bases), len(cat), depth, len(sa.ops)-1, len(csa.ops), nRestart),
-		true, map[string]any{"states": nStates.Load(), "transitions": nTrans.Load(), "traces_validated_against_impl": nTrans.Load(), "chains_built": nChains.Load(), "full_base_store_reads": nFull.Load(), "base_store_keys": len(genesisBase),
+		true, map[string]any{"states": nStates.Load(), "transitions": nTrans.Load(), "traces_validated_against_impl": nTrans.Load(), "chains_built": nChains.Load(), "full_store_reads": nFull.Load(), "store_keys_base_main": []int{len(genesisFull[0]), len(genesisFull[1])},
 			"depth": depth, "deepest_accepted_steps_executed": leafExec, "history_tasks": len(ht) + len(ct), "mutation_catalogue": len(cat)})
 }
